@@ -40,6 +40,11 @@ CLAIMED = {
             "validation reads only the parent's unspent map; equal signed messages imply equal references and outputs.",
             "Ideal signatures (EUF-CMA), tagged-identity hashes, chain-sample oracle, PyMap/PyBytesIO; candidate placed exactly one above "
             "the (patched) checkpoint horizon. Larger blocks are argued compositionally.", "DESIGN.md 4/C01"),
+    "C02": ("CrossHair symbolic execution of CoinState.add_block with fully symbolic amounts + z3 integer arithmetic for the cumulative schedule",
+            "Solver verdict over all amounts in [0, 2^64) for blocks of <= 2 transactions x <= 2 inputs x <= 2 outputs and <= 2 reward outputs, at "
+            "heights on both sides of era boundaries: accepted implies range rules, reward <= subsidy + fees (parent's state) and conservation "
+            "of the summed unspent value (also with a richer sibling fork as served head); cumulative bound by induction (z3) from the real genesis.",
+            "Same stubs as C01; parent unspent values assumed in (0, MAX] (inductive invariant).", "DESIGN.md 4/C02"),
 }
 
 NOT_YET = "not claimed yet in this revision of /verif: the check is still being built (see DESIGN.md section 4 for the planned decision procedure)"
